@@ -453,6 +453,43 @@ class C05(Prop):
         for body, calls in progs:
             yield dict(prog=dict(body=body, calls=calls), ns=[{"pa": ["mod", "pa"]}], loaded=["pa", "pa.s1"], ext=False)
 
+    @staticmethod
+    def scoped_attr_cases():
+        """attribute access / method call written directly on an expression with a scope of its own (list / set / dict
+        comprehension, generator expression, lambda): the loop variables and parameters are bound inside and only inside
+        that expression.  Alone (every lookup of the variable succeeds: nothing about it may be reported), followed by a
+        module-level read of the variable (NameError: must be reported), and followed by a function that reads it."""
+        N = lambda s: ["name", s]
+        K = ["const"]
+        def bases(v):
+            gens = [[N(v), ["list", [K]], []]]
+            gens2 = [[N("b"), ["list", [["list", [K]]]], []], [N(v), N("b"), []]]
+            return [
+                ["listComp", N(v), gens], ["listComp", N(v), gens2], ["genExp", N(v), gens], ["setComp", N(v), gens],
+                ["dictComp", N(v), N(v), gens], ["dictComp", K, N(v), gens2],
+                ["lambda", {"args": [[v, None]], "defaults": []}, N(v)],
+                ["lambda", {"args": [], "defaults": [], "vararg": v}, N(v)],
+            ]
+        for v in ("x",):
+            for base in bases(v):
+                uses = [
+                    ["expr", ["attr", base, "u"]],
+                    ["expr", ["call", ["attr", base, "u"], [K]]],
+                    ["assign", [N("y")], ["attr", ["attr", base, "u"], "v"]],
+                    ["expr", ["subscript", ["attr", base, "u"], K]],
+                ]
+                for use in uses:
+                    guarded = ["try", [use], [[N("Exception"), None, [["pass"]]]], [], []]
+                    f = ["funcDef", "f", {"args": [], "defaults": []}, [["return", N(v)]], [], None]
+                    for body, calls in (
+                        ([use], []),
+                        ([guarded], []),
+                        ([guarded, ["expr", N(v)]], []),
+                        ([guarded, f], [["expr", ["call", N("f"), []]]]),
+                        ([["import", [["pa", v]]], guarded, ["expr", N(v)]], []),
+                    ):
+                        yield dict(prog=dict(body=body, calls=calls), ns=[{}], loaded=[], ext=False)
+
     def exhaustive_cases(self, tier, rng):
         import itertools
         F = self.forms()
@@ -463,7 +500,7 @@ class C05(Prop):
         else:
             combos = [(i,) for i in range(len(F))] + rng.sample(combos[len(F):], 260) + \
                      [tuple(rng.randrange(len(F)) for _ in range(3)) for _ in range(120)]
-        out = list(self.dynamic_attr_cases())
+        out = list(self.dynamic_attr_cases()) + list(self.scoped_attr_cases())
         for c in combos:
             body = [F[i] for i in c]
             prog = {"body": body, "calls": g.call_stmts(body)}
